@@ -42,6 +42,10 @@ CLAIMED = {
          "C20_sin_angle / C20_cos_angle: C09 bound widened by 3 ulp against Real.sin/cos(d deg) for |d| <= 360 and every integral type (analytic from C09's kernel-checked polynomial facts + truncation bound of d*phi/180). "
          "C20_tan_angle: 5 ulp*(1+tan^2) at the 717 angles with cos != 0 (kernel evaluation). C20_types: int8..uint64, float (721 kernel points over the IEEE model) and fixed_t arguments give the same result. "
          "Tie: type-matrix correspondence over d in [-360,360] x 10 argument types x 3 functions + a2r over all 8 types.", "analytic + kernel evaluation over 721 angles + Mathlib enclosures; type-matrix correspondence"),
+ "C12": ("proof", "For BOTH sqrt back-ends and EVERY raw v in [-1,1] (131 073 values): C12_acc (exists x' within 2 ulp of x with |asin(v) - Real.arcsin x'| <= 4 ulp), C12_odd, C12_mono, C12_acos; "
+         "C12_nan_iff for every finite or NaN argument. Kernel-checked enumerations (decide+kernel): 39 323 small-branch arguments, 13 107 values of the square-root argument per back-end "
+         "(abacus root through its proved floor-sqrt characterisation, std::sqrt root evaluated in the exact IEEE-754 model), one-sided Taylor comparisons of Real.sin at (A +- 4)/65536, monotone arcsin. "
+         "Tie: exhaustive correspondence of asin/acos on [-65576, 65576] under std::sqrt and abacus builds.", "reflective kernel enumeration + Mathlib arcsin/sin enclosures + omega; exhaustive correspondence on both back-ends"),
 }
 NA_DEFAULT = "check under construction in this round (the framework is built property by property); not a claim that the technique cannot apply"
 
